@@ -125,9 +125,19 @@ let snap_oracle (prop : string) (ops : op list) (obs : string list) : string =
   let verdict = ref "" and checks = ref 0 in
   let seg = ref [] and seg_ok = ref true in
   let seen = ref [] and reused = ref false in
+  (* two naming schemes on one file specification share the infix space (a number filter also accepts r2024-..): the
+     family of the new configuration then contains files of the old one, and "the end of the family's stream" is not
+     meaningful - the destination check is skipped for such histories (tiling and correspondence still apply) *)
+  let classes = ref [] and mixed = ref false in
   let note_target c =
     let key = (c.c_spec, (match c.c_rot with None -> false | Some _ -> true)) in
-    if List.mem key !seen then reused := true else seen := key :: !seen in
+    if List.mem key !seen then reused := true else seen := key :: !seen;
+    let cls = (match c.c_rot with
+        | Some ((_, (NNumbers | NNumbersDirect)), _) -> 1
+        | Some ((_, _), _) -> 2
+        | None -> 0) in
+    if cls <> 0 && List.exists (fun (sp, k) -> sp = c.c_spec && k <> cls && k <> 0) !classes then mixed := true;
+    classes := (c.c_spec, cls) :: !classes in
   (* a byte sequence as the list of its lines, each with its line feed *)
   let lines_of (b : bytes) : bytes list =
     let rec go acc cur = function
@@ -160,7 +170,7 @@ let snap_oracle (prop : string) (ops : op list) (obs : string list) : string =
            fail "files-do-not-tile-the-logged-records"
          (* what was logged since the last start / reset_flw / reopen_output (no external rename since) is at the end of the
             family of the configuration that is in force: the records went to the newly specified file or family *)
-         else if !seg_ok && not (is_suffix !seg (
+         else if !seg_ok && (not !mixed) && not (is_suffix !seg (
              match c.c_rot with
              | Some _ -> stream_of c snap
              | None -> List.concat (List.filter_map (fun ((nm, k), d) ->
